@@ -70,6 +70,30 @@ Match(e) ==
   ELSE IF e.op \in {"setitem", "delitem", "clear"} /\ e.nrc # ExpRC(e) THEN "read-dependencies"
   ELSE "-"
 
+(* Recorded finding D35 (the Python implementation has no pins), attributed by the model.  A sweep inside a  *)
+(* comparison of a write turns every evictable node into a ghost while the methods on the stack keep their   *)
+(* local `data` lists (_base.py _Tree._set / _del).  Reading the code, what is then lost is                   *)
+(*   - a change made to the inline (never stored) leaf of a ghosted node: the node is reloaded with a new     *)
+(*     copy of that leaf and the change lands in the orphan;                                                  *)
+(*   - what a delete does to an interior node through its local list: removal of an emptied child, separator *)
+(*     refresh (inserts update interior nodes through self._data, read afresh; stored leaves are the same     *)
+(*     objects after a reload, and a leaf's own methods read self._keys afresh after their search).           *)
+(* Only a rejected event of exactly this kind is attributed to D35; any other is a violation.                 *)
+RECURSIVE PathI(_, _, _)
+PathI(h, self, k) == LET s == h[self] IN
+  IF Len(s.kids) = 0 THEN {self}
+  ELSE LET c == s.kids[TreeSearch(s, k)] IN
+       IF h[c].t = "L" THEN {self} ELSE {self} \cup PathI(h, c, k)
+D35Prone(e) ==
+  /\ PImpl = "py" /\ e.swept = 1
+  /\ e.op \in {"setitem", "delitem", "pop", "setdefault"}
+  /\ LET ghosted == PathI(heap, Root, e.k) \cap Evictable
+         leaf == FindLeaf(heap, Root, e.k)
+     IN /\ ghosted # {}
+        /\ \/ leaf # Nil /\ leaf \notin oids
+           \/ /\ e.op \in {"delitem", "pop"} /\ Has_(e.k)
+              /\ LET r == PDelR(heap, oids, Root, e.k) IN \E id \in ghosted : r.h[id] # heap[id]
+
 TNext ==
   /\ bad = 0
   /\ l <= Len(Traces[tid])
@@ -83,7 +107,7 @@ TNext ==
         \/ /\ e.op = "abort" /\ Abort
         \/ /\ e.op = "evictall" /\ Evict(Evictable, "evictall")
         \/ /\ e.op = "evict" /\ Evict({NodeAt(heap, Root, e.path)}, "evict")
-     /\ why' = Match(e)
+     /\ why' = LET w == Match(e) IN IF w # "-" /\ D35Prone(e) THEN "D35:" \o w ELSE w
   /\ bad' = IF why' = "-" THEN 0 ELSE l
   /\ taint' = IF taint # 0 THEN taint ELSE IF Tainted THEN l ELSE 0
   /\ l' = l + 1
